@@ -113,8 +113,8 @@ PROPS["C01"] = {
 }
 PROPS["C07"] = {
     "level": "proof", "title": "Compaction and flushing are invisible to readers",
-    "lean_modules": ["Rain.Props.Lsm", "Rain.Props.Pick", "Rain.Props.Score"], "components": ["lsm", "pick", "score"], "sig_prefixes": ["c07:", "c10:", "c09:"],
-    "technique": "Lean 4 proof that rotation, flush (to any admissible level), table compaction (any admissible inputs, any cut of the output, drop rule with any smallest snapshot, tombstone dropping at the base level) and trivial move preserve every view at or above the smallest snapshot + validity predicates evaluated on every transition of the real worker + full dumps before/after every compaction + input selection: Lean 4 model of finalize_compaction_inputs (SetupOtherInputs: boundary files, level-0 overlap closure with its restart loop, expansion under the 25 x max_file_size limit) and proof that for every state satisfying the invariant and every seed the real callers can pass, the selected files satisfy the input clauses of validCompaction (C07_selected_inputs_are_valid); the real selection is run against the model on synthetic versions and on the database's own versions; the same for what pick_compaction itself selects for a size-triggered compaction (C07_picked_size_compaction_inputs_are_valid)",
+    "lean_modules": ["Rain.Props.Lsm", "Rain.Props.Pick", "Rain.Props.Score", "Rain.Props.Seek"], "components": ["lsm", "pick", "score"], "sig_prefixes": ["c07:", "c10:", "c09:"],
+    "technique": "Lean 4 proof that rotation, flush (to any admissible level), table compaction (any admissible inputs, any cut of the output, drop rule with any smallest snapshot, tombstone dropping at the base level) and trivial move preserve every view at or above the smallest snapshot + validity predicates evaluated on every transition of the real worker + full dumps before/after every compaction + input selection: Lean 4 model of finalize_compaction_inputs (SetupOtherInputs: boundary files, level-0 overlap closure with its restart loop, expansion under the 25 x max_file_size limit) and proof that for every state satisfying the invariant and every seed the real callers can pass, the selected files satisfy the input clauses of validCompaction (C07_selected_inputs_are_valid); the real selection is run against the model on synthetic versions and on the database's own versions; the same for what pick_compaction itself selects for a size-triggered compaction (C07_picked_size_compaction_inputs_are_valid) + seek charging (Version::get / record_read_sample / update_stats / FileMetadata::set_file_size, the trigger of seek compactions) as a Lean model (Rain/Seek) with theorems (the charged file is the first of at least two consulted, lies in the level recorded with it, never in the last level; a recorded file_to_compact is never overwritten and stays well placed under any reads; a new file's budget is positive) tied to the code: every get that reaches the tables and every read sample of every lsm history is recorded by a hook (key, charged (level, file), files of the version searched) and compared with the model's charge; allowed_seeks of every file in every state dump is compared with initialAllowed/updateStats over the recorded charges; the recorded file_to_compact with updateStats over the reads on that version",
     "level_text": "Machine-checked proof (rearrange_view, C07_invisible) over the LSM model for every state satisfying the invariant and every valid transition. " + LSM_TIE + "; full contents (scan + gets at the latest state and at every live snapshot) are dumped before and after every compact_range and after background quiescence.",
     "design_ref": "5 (C07)", "trusted_base": LSM_TB,
     "assumptions": ["a transition outside the validity predicates is reported as a violation even if no wrong read was observed (the proof no longer covers it)"],
@@ -203,7 +203,7 @@ PROPS["C06"] = {
 }
 PROPS["C09"] = {
     "level": "proof", "title": "Every operation terminates; the background worker never dies",
-    "lean_modules": ["Rain.Props.Sched", "Rain.Props.Proto", "Rain.Props.Lsm", "Rain.Props.C14", "Rain.Props.Score", "Rain.Props.Potential"], "components": ["c09", "score"], "sig_prefixes": ["c09:"],
+    "lean_modules": ["Rain.Props.Sched", "Rain.Props.Proto", "Rain.Props.Lsm", "Rain.Props.C14", "Rain.Props.Score", "Rain.Props.Potential", "Rain.Props.Seek"], "components": ["c09", "score"], "sig_prefixes": ["c09:"],
     "technique": "Lean 4 proofs over a model of the background-work protocol (scheduled flag, task channel, condition variable, shutdown): invariant for every reachable state (work is never left unscheduled, a sleeper always has a waker, the flag matches queued/running tasks), every worker task decreases a potential or sets the sticky error, every worker-only run is bounded by 2*potential and ends with every wait condition false (C09_inv, C09_sleeper_has_waker, C09_blocked_writer_has_worker, C09_worker_task_progress, C09_worker_runs_are_bounded, C09_worker_idle_means_nobody_waits, C09_waiters_are_released[_without_failure]); writer-queue progress (C09_writer_progress); which compaction runs: model of Version::finalize + VersionSet::pick_compaction with the loop bound, trigger and limits regenerated from the sources, proved never to ask for a compaction of the last level or of an empty level (the two panics of pick_compaction; C09_code_pick_never_panics) and always to pick one when the score asks for it (C09_size_compaction_is_picked_of_inv), compared with the real functions on synthetic versions; table work terminates: an entry-weighted depth potential strictly decreases with every valid table compaction and trivial move and only writes raise it (C09_compaction_decreases_potential, C09_table_work_is_bounded: #table operations <= 6 x #entries written); totality of every model function; the model's invariant evaluated on every scheduling step and on sampled states of the real database; watchdog scenarios and a panic hook on the real code",
     "level_text": "Proved for every reachable state and every interleaving of the protocol model: the flag/channel/condvar protocol between clients (memtable rotation, manual compaction, seek-triggered work, waits in make_room_for_write / compact_range / Drop) and the single worker cannot lose a wake-up or deadlock, and the worker alone releases every waiter within 2*potential steps (potential = pending flush + manual rounds + compaction work; for table compactions such a potential is exhibited and proved over the LSM model: every transition the real worker performs is validated against that model's transition relation, and Rain.Props.Potential proves that each valid table compaction or trivial move lowers the entry-weighted depth sum(6 - level) by at least the number of entries taken from the upper level); the choice of the compaction (level scores, seed file after the compaction pointer) is modelled with the code's own constants and proved never to hit pick_compaction's two panics and to return a non-empty valid compaction whenever the score asks for one; the writer hand-off cannot deadlock; every modelled read path is a total function (kernel-checked termination, no partial/unsafe); the LSM invariant excludes the layouts on which the version builder panics. Tied to the code on every run: the real database records every 'schedule' / worker 'start' / 'finish' step inside the critical section that performs it, and a sampler thread dumps the state whenever the mutex is free; the model's invariant (through the driver, with L0 trigger/stop regenerated from the sources) is evaluated on every recorded step (~20 000 per quick run) and every distinct sampled observation (~80 000 samples). What no model here exhibits - lock re-entrancy, thread joins, panics, a wait that re-checks a stale condition - is decided by running the real code: every harness-issued call runs under a watchdog with a process-wide panic hook; the C09 component drives every descriptor kind, sustained multi-threaded writes through the memtable-full / L0-slowdown / L0-stop waits with concurrent manual compactions, close immediately afterwards, close with live iterators, degenerate option values, snapshots/iterators from several threads. Hangs and worker deaths found this way (D4, D12, D13) are repaired and kept as corpus.",
     "design_ref": "5 (C09), 0.2",
